@@ -47,6 +47,14 @@ def tags_of(files, op):
                 tags.add("class-body-name-shadows-a-global-it-reads")
     if target in dest_top:
         tags.add("moved-name-exists-in-destination")
+    # the moved code reads a global that stays behind (destination will import it from the source)
+    # while code staying behind uses the moved name (source will import the destination): a cycle
+    rest_uses_target = any(isinstance(n, ast.Name) and n.id == target and isinstance(n.ctx, ast.Load)
+                           for st in tree.body if st not in moved for n in ast.walk(st))
+    for st in moved:
+        free = {n.id for n in ast.walk(st) if isinstance(n, ast.Name) and isinstance(n.ctx, ast.Load)} & (src_top - {target})
+        if free and rest_uses_target:
+            tags.add("source-and-destination-import-each-other")
     # aliases in client modules spelled like other names
     for p, t in files.items():
         if p in (op["path"], op["dest"]) or not p.endswith(".py"):
